@@ -84,6 +84,12 @@ theorem onStartResult_noReport (ce : Ctx → Bool)
   unfold onStartResult at h ⊢
   cases hce : ce Ctx.start <;> simp_all
 
+theorem onOtherResult_noReport (ce : Ctx → Bool)
+    (h : (onOtherResult ce).contains PoolAct.reportErr = false) :
+    ∀ x ∈ onOtherResult ce, x = PoolAct.cancel Ctx.start := by
+  unfold onOtherResult at h ⊢
+  cases hce : ce Ctx.run <;> simp_all
+
 /-- a step of a pool other than the run cancel from outside marks the run as cancelled only by reporting an error -/
 theorem poolStep_sawRun (c : Cfg) (p : PSt) (ev : PEvent) (hne : ev ≠ .loop .runCancel)
     (h : (poolStep c p ev).base.sawRunCancelled = true) :
@@ -147,6 +153,15 @@ theorem poolStep_sawRun (c : Cfg) (p : PSt) (ev : PEvent) (hne : ev ≠ .loop .r
           simpa [reportsErr, hg'] using hr
         rwa [acts_startOnly_sawRun c _ _ (onStartResult_noReport _ hr')] at h
 
+  | recvOther ce =>
+    simp only [poolStep] at h
+    by_cases hr : reportsErr p (.recvOther ce) = true
+    · exact Or.inr hr
+    · left
+      have hr' : (onOtherResult (fun _ => ce)).contains PoolAct.reportErr = false := by
+        simpa [reportsErr] using hr
+      rwa [acts_startOnly_sawRun c _ _ (onOtherResult_noReport _ hr')] at h
+
 /-- once the pool has found everything finished it stays so -/
 theorem poolStep_cancelled_mono (c : Cfg) (p : PSt) (ev : PEvent) (h : p.poolCancelled = true) :
     (poolStep c p ev).poolCancelled = true := by
@@ -180,6 +195,7 @@ theorem poolStep_cancelled_mono (c : Cfg) (p : PSt) (ev : PEvent) (h : p.poolCan
       split
       · rfl
       · exact h
+  | recvOther ce => exact h
 
 /-! ### the sequential loop of `Engine.Run`, one reception at a time -/
 
@@ -529,5 +545,295 @@ theorem poolReturn_inv (c : Nat → Cfg) (toks : Nat → List Int) (e : ESt) (h 
       show (setPool e.pool j _ k).failed = true ∨ _
       rw [setPool_ne _ _ _ _ hkj]
       exact h.saw k hk hs'
+
+/-- the await loop of `Engine.Run`, still waiting, receives the result `b` of pool `j` -/
+theorem recvResult_inv (c : Nat → Cfg) (toks : Nat → List Int) (e : ESt) (h : EInv c toks e) (j : Nat) (b : Bool)
+    (hj : j < e.n) (hnone : e.eng.ret = none) (hna : (e.pool j).awaited = false) (hret : (e.pool j).ret = some b) :
+    EInv c toks { e with pool := setPool e.pool j ({ e.pool j with awaited := true } : EPool),
+                         eng := engSeq e.n e.eng.awaited [.result b], recvd := e.recvd ++ [.result b] } := by
+  have hi : e.eng.awaited < (e.n : Int) := h.waiting hnone
+  have hsrc0 : (engSeq (e.n : Int) 0 e.recvd).ret = none := by rw [← h.src]; exact hnone
+  have hsrc : engSeq (e.n : Int) e.eng.awaited [.result b] = engSeq (e.n : Int) 0 (e.recvd ++ [.result b]) := by
+    rw [engSeq_append_of_none _ _ _ _ hsrc0, ← h.src]
+  have hcnt0 := h.cnt (by rw [hnone]; simp)
+  have hcnt1 : cntUpTo (fun k => (setPool e.pool j ({ e.pool j with awaited := true } : EPool) k).awaited) e.n =
+      cntUpTo (fun k => (e.pool k).awaited) e.n + 1 := by
+    rw [cntUpTo_set (fun k => (e.pool k).awaited) _ j e.n hna (by simp [setPool])
+      (fun k hk => by simp [setPool, hk])]
+    simp [hj]
+  have hpk : ∀ k, (setPool e.pool j ({ e.pool j with awaited := true } : EPool) k).p = (e.pool k).p := by
+    intro k; by_cases hk : k = j
+    · subst hk; rw [setPool_same]
+    · rw [setPool_ne _ _ _ _ hk]
+  have hrk : ∀ k, (setPool e.pool j ({ e.pool j with awaited := true } : EPool) k).ret = (e.pool k).ret := by
+    intro k; by_cases hk : k = j
+    · subst hk; rw [setPool_same]
+    · rw [setPool_ne _ _ _ _ hk]
+  have hfk : ∀ k, (setPool e.pool j ({ e.pool j with awaited := true } : EPool) k).failed = (e.pool k).failed := by
+    intro k; by_cases hk : k = j
+    · subst hk; rw [setPool_same]
+    · rw [setPool_ne _ _ _ _ hk]
+  have hone := engSeq_one (e.n : Int) e.eng.awaited hi (.result b)
+  refine ⟨fun k => ?_, hsrc, fun k hk hr => ?_, fun hex => ?_, fun hne => ?_, fun hw => ?_, fun k hk ha => ?_,
+    fun hok => ?_, fun hf => ?_, fun hc => ?_, fun k hk hs => ?_⟩
+  · show ∃ pevs, (setPool e.pool j _ k).p = _
+    rw [hpk k]; exact h.reach k
+  · show (setPool e.pool j _ k).p.poolCancelled = true
+    rw [hpk k]
+    exact h.retOk k hk (by rw [← hrk k]; exact hr)
+  · obtain ⟨k, hk, hr⟩ := hex
+    rcases h.retErr ⟨k, hk, by rw [← hrk k]; exact hr⟩ with hc | ⟨k', hk', hf⟩
+    · exact Or.inl hc
+    · exact Or.inr ⟨k', hk', by show (setPool e.pool j _ k').failed = true; rw [hfk k']; exact hf⟩
+  · show (engSeq (e.n : Int) e.eng.awaited [.result b]).awaited = ((cntUpTo _ e.n : Nat) : Int)
+    rw [hcnt1, hone]
+    cases b with
+    | true => simp only; split <;> (simp only; omega)
+    | false => exact absurd (by rw [hone]) hne
+  · show (engSeq (e.n : Int) e.eng.awaited [.result b]).awaited < (e.n : Int)
+    have hw' : (engSeq (e.n : Int) e.eng.awaited [.result b]).ret = none := hw
+    rw [hone] at hw' ⊢
+    cases b with
+    | true =>
+      simp only at hw' ⊢
+      split at hw'
+      · rename_i hlt; simp only [hlt, if_true]
+      · cases hw'
+    | false => cases hw'
+  · have ha' : (setPool e.pool j ({ e.pool j with awaited := true } : EPool) k).awaited = true := ha
+    show (setPool e.pool j _ k).ret = some true ∨ (engSeq (e.n : Int) e.eng.awaited [.result b]).ret = some .failed
+    rw [hrk k]
+    by_cases hkj : k = j
+    · subst hkj
+      cases b with
+      | true => exact Or.inl hret
+      | false => right; rw [hone]
+    · rw [setPool_ne _ _ _ _ hkj] at ha'
+      rcases h.awaitedTrue k hk ha' with hr | hr
+      · exact Or.inl hr
+      · rw [hnone] at hr; cases hr
+  · show (engSeq (e.n : Int) e.eng.awaited [.result b]).awaited = (e.n : Int)
+    have hok' : (engSeq (e.n : Int) e.eng.awaited [.result b]).ret = some .ok := hok
+    rw [hone] at hok' ⊢
+    cases b with
+    | true =>
+      simp only at hok' ⊢
+      split at hok'
+      · cases hok'
+      · rename_i hlt; simp only [hlt, if_false]; omega
+    | false => cases hok'
+  · have hf' : (engSeq (e.n : Int) e.eng.awaited [.result b]).ret = some .failed := hf
+    rw [hone] at hf'
+    cases b with
+    | true =>
+      simp only at hf'
+      split at hf' <;> cases hf'
+    | false => exact ⟨j, hj, by show (setPool e.pool j _ j).ret = _; rw [hrk j]; exact hret⟩
+  · have hc' : (engSeq (e.n : Int) e.eng.awaited [.result b]).ret = some .cancelled := hc
+    rw [hone] at hc'
+    cases b with
+    | true =>
+      simp only at hc'
+      split at hc' <;> cases hc'
+    | false => cases hc'
+  · have hs' : (setPool e.pool j ({ e.pool j with awaited := true } : EPool) k).p.base.sawRunCancelled = true := hs
+    rw [hpk k] at hs'
+    show (setPool e.pool j _ k).failed = true ∨ _
+    rw [hfk k]
+    rcases h.saw k hk hs' with hf | hd
+    · exact Or.inl hf
+    · right
+      simp only [ESt.ctxDone, ESt.returned, hnone, Option.isSome_none, Bool.or_false] at hd
+      simp only [ESt.ctxDone, hd, Bool.true_or]
+
+/-- the await loop of `Engine.Run`, still waiting, takes its `ctx.Done()` case (the caller has cancelled) -/
+theorem seesCancel_inv (c : Nat → Cfg) (toks : Nat → List Int) (e : ESt) (h : EInv c toks e)
+    (hnone : e.eng.ret = none) (hcc : e.callerCancelled = true) :
+    EInv c toks { e with eng := engSeq e.n e.eng.awaited [.ctxDone], recvd := e.recvd ++ [.ctxDone] } := by
+  have hi : e.eng.awaited < (e.n : Int) := h.waiting hnone
+  have hsrc0 : (engSeq (e.n : Int) 0 e.recvd).ret = none := by rw [← h.src]; exact hnone
+  have hsrc : engSeq (e.n : Int) e.eng.awaited [.ctxDone] = engSeq (e.n : Int) 0 (e.recvd ++ [.ctxDone]) := by
+    rw [engSeq_append_of_none _ _ _ _ hsrc0, ← h.src]
+  have hone : engSeq (e.n : Int) e.eng.awaited [.ctxDone] = { awaited := e.eng.awaited, ret := some .cancelled } :=
+    engSeq_one (e.n : Int) e.eng.awaited hi .ctxDone
+  refine ⟨h.reach, hsrc, h.retOk, h.retErr, fun _ => ?_, fun hw => ?_, fun k hk ha => ?_, fun hok => ?_, fun hf => ?_,
+    fun _ => hcc, fun k hk hs => ?_⟩
+  · show (engSeq (e.n : Int) e.eng.awaited [.ctxDone]).awaited = _
+    rw [hone]
+    exact h.cnt (by rw [hnone]; simp)
+  · have hw' : (engSeq (e.n : Int) e.eng.awaited [.ctxDone]).ret = none := hw
+    rw [hone] at hw'; cases hw'
+  · rcases h.awaitedTrue k hk ha with hr | hr
+    · exact Or.inl hr
+    · rw [hnone] at hr; cases hr
+  · have hok' : (engSeq (e.n : Int) e.eng.awaited [.ctxDone]).ret = some .ok := hok
+    rw [hone] at hok'; cases hok'
+  · have hf' : (engSeq (e.n : Int) e.eng.awaited [.ctxDone]).ret = some .failed := hf
+    rw [hone] at hf'; cases hf'
+  · right
+    simp only [ESt.ctxDone, hcc, Bool.true_or]
+
+theorem engRecv_returned_inv (c : Nat → Cfg) (toks : Nat → List Int) (e' : ESt) (h : EInv c toks e') :
+    EInv c toks (if e'.returned then cancelAll c e' else e') := by
+  by_cases hr : e'.returned = true
+  · rw [if_pos hr]
+    exact cancelAll_inv c toks e' h (by simp [ESt.ctxDone, hr])
+  · rw [if_neg hr]
+    exact h
+
+theorem estep_inv (c : Nat → Cfg) (toks : Nat → List Int) (e : ESt) (ev : EEvent) (h : EInv c toks e) :
+    EInv c toks (estep c e ev) := by
+  cases ev with
+  | pool j pev =>
+    simp only [estep]
+    by_cases hg : (decide (e.n ≤ j) || pev == .loop .runCancel) = true
+    · rw [if_pos hg]; exact h
+    · rw [if_neg hg]
+      simp only [Bool.or_eq_true, decide_eq_true_eq, beq_iff_eq, not_or] at hg
+      obtain ⟨_, hne⟩ := hg
+      apply setPool_inv c toks e h j
+      · obtain ⟨pevs, hp⟩ := h.reach j
+        exact ⟨pevs ++ [pev], by rw [poolRun_snoc, ← hp]⟩
+      · rfl
+      · rfl
+      · intro hf; simp [hf]
+      · exact poolStep_cancelled_mono (c j) _ pev
+      · intro hs
+        rcases poolStep_sawRun (c j) _ pev hne hs with ho | hr
+        · exact Or.inl ho
+        · right; simp [hr]
+  | callerCancel =>
+    simp only [estep]
+    apply cancelAll_inv
+    · exact ⟨h.reach, h.src, h.retOk, fun _ => Or.inl rfl, h.cnt, h.waiting, h.awaitedTrue, h.okAll, h.failedR,
+        fun _ => rfl, fun _ _ _ => Or.inr (by simp [ESt.ctxDone])⟩
+    · simp [ESt.ctxDone]
+  | poolReturn j b =>
+    simp only [estep]
+    by_cases hg : (decide (e.n ≤ j) || (e.pool j).ret.isSome) = true
+    · rw [if_pos hg]; exact h
+    · rw [if_neg hg]
+      simp only [Bool.or_eq_true, decide_eq_true_eq, not_or, Bool.not_eq_true, Option.isSome_eq_false_iff,
+        Option.isNone_iff_eq_none] at hg
+      obtain ⟨hj, hnone⟩ := hg
+      cases b with
+      | true =>
+        simp only [if_true]
+        by_cases hc : (e.pool j).p.poolCancelled = true
+        · rw [if_pos hc]
+          exact poolReturn_inv c toks e h j true (by omega) hnone (fun _ => hc) (by intro hx; cases hx)
+        · rw [if_neg hc]; exact h
+      | false =>
+        simp only [Bool.false_eq_true, if_false]
+        by_cases hc : ((e.pool j).failed || e.ctxDone) = true
+        · rw [if_pos hc]
+          refine poolReturn_inv c toks e h j false (by omega) hnone (by intro hx; cases hx) (fun _ => ?_)
+          simpa using hc
+        · rw [if_neg hc]; exact h
+  | engineRecv j =>
+    simp only [estep]
+    by_cases hg : (decide (e.n ≤ j) || e.returned || (e.pool j).awaited) = true
+    · rw [if_pos hg]; exact h
+    · rw [if_neg hg]
+      simp only [Bool.or_eq_true, decide_eq_true_eq, not_or, Bool.not_eq_true] at hg
+      obtain ⟨⟨hj, hret⟩, hna⟩ := hg
+      have hnone : e.eng.ret = none := by
+        simp only [ESt.returned] at hret
+        cases hr : e.eng.ret with
+        | none => rfl
+        | some r => rw [hr] at hret; cases hret
+      cases hb : (e.pool j).ret with
+      | none => exact h
+      | some b =>
+        simp only [engRecv]
+        have key := recvResult_inv c toks e h j b (by omega) hnone hna hb
+        have heq : ({ e.pool j with awaited := true } : EPool) =
+            { p := (e.pool j).p, failed := (e.pool j).failed, ret := some b, awaited := true } := by
+          show EPool.mk _ _ _ _ = _
+          rw [hb]
+        rw [heq] at key
+        exact engRecv_returned_inv c toks _ key
+  | engineSeesCancel =>
+    simp only [estep]
+    by_cases hg : (!e.callerCancelled || e.returned) = true
+    · rw [if_pos hg]; exact h
+    · rw [if_neg hg]
+      simp only [Bool.or_eq_true, Bool.not_eq_true', not_or, Bool.not_eq_false, Bool.not_eq_true] at hg
+      obtain ⟨hcc, hret⟩ := hg
+      have hnone : e.eng.ret = none := by
+        simp only [ESt.returned] at hret
+        cases hr : e.eng.ret with
+        | none => rfl
+        | some r => rw [hr] at hret; cases hret
+      simp only [engRecv]
+      exact engRecv_returned_inv c toks _ (seesCancel_inv c toks e h hnone hcc)
+
+theorem estep_n (c : Nat → Cfg) (e : ESt) (ev : EEvent) : (estep c e ev).n = e.n := by
+  cases ev with
+  | pool j pev => simp only [estep]; split <;> rfl
+  | callerCancel => rfl
+  | poolReturn j b =>
+    simp only [estep]
+    split
+    · rfl
+    · split
+      · split <;> rfl
+      · split <;> rfl
+  | engineRecv j =>
+    simp only [estep]
+    split
+    · rfl
+    · split
+      · rfl
+      · simp only [engRecv]; split <;> rfl
+  | engineSeesCancel =>
+    simp only [estep]
+    split
+    · rfl
+    · simp only [engRecv]; split <;> rfl
+
+theorem erun_n (c : Nat → Cfg) (e : ESt) (evs : List EEvent) : (erun c e evs).n = e.n := by
+  induction evs generalizing e with
+  | nil => rfl
+  | cons ev rest ih =>
+    show (erun c (estep c e ev) rest).n = e.n
+    rw [ih, estep_n]
+
+theorem erun_inv (c : Nat → Cfg) (toks : Nat → List Int) (e : ESt) (evs : List EEvent) (h : EInv c toks e) :
+    EInv c toks (erun c e evs) := by
+  induction evs generalizing e with
+  | nil => exact h
+  | cons ev rest ih => exact ih (estep c e ev) (estep_inv c toks e ev h)
+
+/-- why the run of pool `j` was cancelled: the caller, a pool that failed, or everything of every pool had finished -/
+theorem cancel_cause (c : Nat → Cfg) (toks : Nat → List Int) (e : ESt) (h : EInv c toks e) (j : Nat) (hj : j < e.n)
+    (hs : (e.pool j).p.base.sawRunCancelled = true) :
+    e.callerCancelled = true ∨ (∃ k, k < e.n ∧ (e.pool k).failed = true) ∨
+      (∀ k, k < e.n → (e.pool k).ret = some true ∧ (e.pool k).p.poolCancelled = true) := by
+  rcases h.saw j hj hs with hf | hd
+  · exact Or.inr (Or.inl ⟨j, hj, hf⟩)
+  · simp only [ESt.ctxDone, Bool.or_eq_true] at hd
+    rcases hd with hc | hret
+    · exact Or.inl hc
+    · simp only [ESt.returned] at hret
+      cases hres : e.eng.ret with
+      | none => rw [hres] at hret; cases hret
+      | some r =>
+        cases r with
+        | ok =>
+          right; right
+          have hall := h.okAll hres
+          have hcnt := h.cnt (by rw [hres]; simp)
+          have hfull : cntUpTo (fun k => (e.pool k).awaited) e.n = e.n := by omega
+          intro k hk
+          have haw := cntUpTo_full _ _ hfull k hk
+          rcases h.awaitedTrue k hk haw with hr1 | hr1
+          · exact ⟨hr1, h.retOk k hk hr1⟩
+          · rw [hres] at hr1; cases hr1
+        | failed =>
+          rcases h.retErr (h.failedR hres) with hc | hf
+          · exact Or.inl hc
+          · exact Or.inr (Or.inl hf)
+        | cancelled => exact Or.inl (h.cancelledR hres)
 
 end Pandora.Proofs.C12
